@@ -266,6 +266,19 @@ def parse_eoi(ctx):
     return _emit(d)
 
 
+def _top_pair(s):
+    """'a, b' -> (a, b) split at the top-level comma"""
+    depth = 0
+    for i, ch in enumerate(s):
+        if ch in "([{":
+            depth += 1
+        elif ch in ")]}":
+            depth -= 1
+        elif ch == "," and depth == 0:
+            return s[:i].strip(), s[i + 1:].strip()
+    return None
+
+
 @rule("PARSE-BRACKET", ["C07", "C20"], floor=6)
 def parse_bracket(ctx):
     """bracket(): {m} -> (m,m); {m,} -> (m,MAX); {m,n} -> (m,n) only if n >= m; every success consumed the closing
@@ -283,11 +296,13 @@ def parse_bracket(ctx):
         for e in p.effects:
             if e[0] == "store":
                 st[strip_ver(show(e[1]))] = _sh(strip_ver(render(e[2])))
-        if r == "Result::Ok{0: ()}":
+        rt = _top_pair(strip_ver(r)[len("Result::Ok{0: ("):-2]) if strip_ver(r).startswith("Result::Ok{0: (") and strip_ver(r) != "Result::Ok{0: ()}" else None
+        if r == "Result::Ok{0: ()}" or rt is not None:
             closes = [g for g in gs0 if re.match(r"^eq\('\}', a1\.pattern\[.*\]\)$", g)]
             _rec(d, "ok-consumed-brace", bool(closes), "bracket() succeeds without having seen the closing '}'", loc)
-            mx = st.get("a1.bracket_max")
-            mn = st.get("a1.bracket_min")
+            # the bounds: stored in the two compiler fields, or handed back as the pair (min, max)
+            mx = _sh(rt[1]) if rt else st.get("a1.bracket_max")
+            mn = _sh(rt[0]) if rt else st.get("a1.bracket_min")
             _rec(d, "min-parsed", mn is not None and "parse(" in mn, "bracket_min must be the parsed number; found %s" % (mn or "")[:80], loc)
             comma = any(re.match(r"^eq\(',', a1\.pattern\[", g) for g in gs0)
             if not comma:
